@@ -80,7 +80,8 @@ namespace glm
 
 		genType const prev = highestBitValue(value);
 		genType const next = prev << 1;
-		return (next - value) < (value - prev) ? next : prev;
+		// next is not representable (wrapped to 0 or to the sign bit) for values above the largest power of two of the type
+		return (next > prev && (next - value) < (value - prev)) ? next : prev;
 	}
 
 	template<length_t L, typename T, qualifier Q>
